@@ -148,6 +148,8 @@ type work struct {
 	style Style
 	text  string
 	outs  []*outcome
+	files map[string]string // import graphs: the files as written
+	graph *graph
 }
 
 func sameConds(a, b condMap) bool {
@@ -389,7 +391,14 @@ func judge(r *core.Run, voc *Vocab, i int, w *work, results map[string]*nodeResu
 		sort.Strings(gotF)
 		wantF := append([]string{}, c.Feats...)
 		sort.Strings(wantF)
-		if strings.Join(gotF, ",") != strings.Join(wantF, ",") {
+		if w.graph != nil {
+			// imports that are ignored (cycles) still show their conditions to the evaluator
+			if !subset(wantF, gotF) {
+				drift = fmt.Sprintf("features: spec %v evaluator %v", wantF, gotF)
+			} else if !subset(wantAtoms, in.Atoms) {
+				drift = fmt.Sprintf("atoms: spec %v evaluator %v", wantAtoms, in.Atoms)
+			}
+		} else if strings.Join(gotF, ",") != strings.Join(wantF, ",") {
 			drift = fmt.Sprintf("features: spec %v evaluator %v", wantF, gotF)
 		} else if strings.Join(in.Atoms, ",") != strings.Join(wantAtoms, ",") {
 			drift = fmt.Sprintf("atoms: spec %v evaluator %v", wantAtoms, in.Atoms)
@@ -498,7 +507,8 @@ func judge(r *core.Run, voc *Vocab, i int, w *work, results map[string]*nodeResu
 			reported = true
 			key := map[string]interface{}{"css": w.text, "minify": o.cfg.Minify, "target": o.cfg.Target, "loader": o.cfg.Loader}
 			r.Violation(key, fmt.Sprintf("cascade not preserved (%s): %s\n--- input\n%s\n--- output\n%s", o.cfg, bad, w.text, o.text),
-				map[string]interface{}{"case": c.Name, "family": c.Family, "items": c.Items, "style": w.style, "config": o.cfg, "input": w.text, "output": o.text, "what": bad})
+				map[string]interface{}{"case": c.Name, "family": c.Family, "items": c.Items, "style": w.style, "config": o.cfg, "input": w.text, "output": o.text, "what": bad,
+					"files": w.files, "graph": w.graph})
 		}
 	}
 	st.mu.Lock()
@@ -534,12 +544,25 @@ func Run(r *core.Run) {
 		wg.Add(1)
 		go func() {
 			defer wg.Done()
-			runMC(r, pickS(r, "CssMC.quick.cfg", "CssMC.thorough.cfg"), 4, func(c *Case) {
+			runMC(r, pickS(r, "CssMC.quick.cfg", "CssMC.thorough.cfg"), 3, func(c *Case) {
 				c.Family = "mc-casc"
 				mu.Lock()
 				mcCases = append(mcCases, c)
 				mu.Unlock()
 			})
+		}()
+	}
+	gi := &gen{voc: voc, rng: rand.New(rand.NewSource(r.Seed + 99))}
+	var graphs []graph
+	for k := 0; k < r.Pick(120, 2500); k++ {
+		graphs = append(graphs, gi.graph(fmt.Sprintf("imp-%d", k)))
+	}
+	var impCases map[string]*Case
+	if !skipMC {
+		wg.Add(1)
+		go func() {
+			defer wg.Done()
+			impCases = runImportTLC(r, graphs, 2)
 		}()
 	}
 	g := &gen{voc: voc, rng: rand.New(rand.NewSource(r.Seed))}
@@ -549,7 +572,7 @@ func Run(r *core.Run) {
 	}
 	sheets := g.Sheets(nSheets, r.Pick(4, 5))
 	t0 := time.Now()
-	got := runGen(r, sheets, 1, 4)
+	got := runGen(r, sheets, r.Pick(1, 2), 3)
 	r.Logf("CssGen: %d sheets -> %d cases in %.1fs", len(sheets), len(got), time.Since(t0).Seconds())
 	wg.Wait()
 	sort.Slice(mcCases, func(i, j int) bool { return mcCases[i].Name < mcCases[j].Name })
@@ -580,6 +603,11 @@ func Run(r *core.Run) {
 	t0 = time.Now()
 	checkCases(r, voc, cases, st)
 	r.Logf("replayed %d cases (%d outputs) in %.1fs", st.cases, st.outputs, time.Since(t0).Seconds())
+	if impCases != nil {
+		t0 = time.Now()
+		checkImports(r, voc, graphs, impCases, st)
+		r.Logf("import graphs: %d bundled in %.1fs", len(graphs), time.Since(t0).Seconds())
+	}
 	finish(r, st)
 }
 
